@@ -97,7 +97,7 @@ def check_axioms(on_violation, tier):
     rnd = random.Random(11)
     pools: dict = {"int": list(range(-1, 5)), "bool": [False, True], "str": ["", "a", "ab", "b", "a" + D.ASTRAL, D.ASTRAL, D.ASTRAL + "a", "ab" + D.ASTRAL + "b"]}
     nodes, frags, types, marks, mtypes = [], [], [], [], []
-    for name in ("basic", "list", "table", "marksx"):
+    for name in ("basic", "list", "table", "marksx", "note"):
         try:
             S, O = D.schema(name)
         except Exception:  # noqa: BLE001
@@ -222,7 +222,7 @@ def corpus_workload(tier, deadline):
     from prosemirror.model import Slice
     from prosemirror.transform import Transform
 
-    for name in ("basic", "list", "table", "marksx"):
+    for name in ("basic", "list", "table", "marksx", "note"):
         try:
             S, O = D.schema(name)
         except Exception:  # noqa: BLE001
